@@ -180,6 +180,9 @@ RefStep(kind, p, s, in) ==
         LET e == EmaStep(s.e, p.n, RI(TrVal(s.tr, in)))  fl == FlatStep(s.fl, in) IN
         O([tr |-> TrNext(s.tr, in), e |-> e, fl |-> fl], <<F("out", e.v, "spread", "tau")>>,
           NoDen, "ratio", fl.run >= 2, RZero, RZero)
+    \* The output of a multi-valued kind is a sequence of named fields; its ORDER is part of the interface: it is the order of the
+    \* documented tuple conversion (`From<...Output> for (f64, f64, f64)`: MACD (macd, signal, histogram), PPO (ppo, signal,
+    \* histogram), CE (long, short)); the adapter reads every output through both routes and the replayer compares them bitwise.
     [] kind = "MACD" ->
         LET x == RI(Cl(in))
             f == EmaStep(s.f, p.n, x)   sl == EmaStep(s.s, p.n2, x)
